@@ -16,11 +16,17 @@ MARGIN = {"float64": 1e-10, "float32": 1e-4}
 
 
 def cond_full_row_rank(J: np.ndarray):
-    """Returns cond = s_max / s_m if J has full row rank (m <= n), else None."""
-    m, n = J.shape
+    """Condition number of the NON-ZERO rows of J if they are linearly independent, else None.
+
+    Exactly-zero rows are allowed: they make the rank deficient but not numerically ambiguous (the corresponding
+    singular value is exactly 0, far below any rank tolerance); the zero matrix has rank 0 (cond 1)."""
+    nz = J[np.any(J != 0, axis=1)]
+    m, n = nz.shape
+    if m == 0:
+        return 1.0
     if m > n:
         return None
-    sv = np.linalg.svd(J, compute_uv=False)
+    sv = np.linalg.svd(nz, compute_uv=False)
     if sv[m - 1] <= 0:
         return None
     return float(sv[0] / sv[m - 1])
@@ -40,6 +46,15 @@ def domain_exclusion(spec: dict, dtype: str, J: np.ndarray):
     if name in ("UPGrad", "DualProj", "CAGrad"):
         if s < 2 * spec.get("norm_eps", 1e-4):
             return "below-2-norm_eps"
+    if name == "CAGrad" and s > 0 and m <= 10:
+        # CAGrad switches to the zero vector when its worst-case direction g_w is shorter than norm_eps (relative to
+        # s): a discontinuity. The decision is ambiguous when the min-norm point of the hull is within a decade of
+        # norm_eps, and in float32 whenever it is below the noise floor ~sqrt(eps) of the reduced matrix U sqrt(S).
+        mu2, _ = refs.min_norm_hull(J)
+        rel_mu = float(np.sqrt(mu2)) / s
+        ne = spec.get("norm_eps", 1e-4)
+        if ne / 10 <= rel_mu <= 10 * ne or (dtype == "float32" and rel_mu < 30 * np.sqrt(eps)):
+            return "cagrad-stationarity-decision-ambiguous"
     if name in ("UPGrad", "DualProj") and s > 0:
         lam = max(0.0, float(np.linalg.eigvalsh(J @ J.T)[0]) / s**2)
         if spec.get("reg_eps", 1e-4) + lam < 50 * m * eps:
